@@ -865,19 +865,23 @@ BODY_MUT = '''        from stepup.core.file import File
 '''
 
 
-def o10_3(tier):
-    import stepup.core.step as stp
+DEEP = ("Step.detach", "Step.reattach(step)", "Step.hold", "Step.release")
 
-    res = ObResult()
-    K, D = (4, 3) if tier == "quick" else (5, 4)
-    res.bounds = f"{K} node slots, {D} dependency edges; one mutation through the real method from any state satisfying the schema, I1-I7 and INV_flags; node ids, new states and endpoints symbolic"
-    res.encoded += [enc(stp.STEP_SCHEMA, "step.STEP_SCHEMA (triggers)"), enc(stp.RECURSIVE_CHECK_WITH_PRODUCTS, "step.RECURSIVE_CHECK_WITH_PRODUCTS"), enc(stp.RECURSIVE_CHECK_AFTER_SOURCES, "step.RECURSIVE_CHECK_AFTER_SOURCES")]
-    muts = mutations()
-    only = os.environ.get("VERIF_MUTATIONS")
-    total_paths = 0
-    for name, fn in muts.items():
-        if only and name not in only.split(","):
-            continue
+
+def mk_o10_3(name):
+    def fn(tier):
+        import stepup.core.step as stp
+
+        res = ObResult()
+        if name == "Step.reattach(step)":
+            K, D = (4, 3) if tier == "quick" else (5, 3)  # 540 paths at K=5: thorough only
+        elif name in DEEP:
+            K, D = (5, 3) if tier == "quick" else (6, 4)
+        else:
+            K, D = (4, 3) if tier == "quick" else (5, 4)
+        res.bounds = f"mutation {name}: {K} node slots, {D} dependency edges; from any state satisfying the schema, I1-I9 and INV_flags; node ids, new states and endpoints symbolic"
+        res.encoded += [enc(stp.STEP_SCHEMA, "step.STEP_SCHEMA (triggers)"), enc(stp.RECURSIVE_CHECK_WITH_PRODUCTS, "step.RECURSIVE_CHECK_WITH_PRODUCTS"), enc(stp.RECURSIVE_CHECK_AFTER_SOURCES, "step.RECURSIVE_CHECK_AFTER_SOURCES")]
+        fn_m = mutations()[name]
 
         def pre(wf):
             rank = [z3.Int(f"crk[{j}]") for j in range(wf.K)]
@@ -888,25 +892,25 @@ def o10_3(tier):
                         cons.append(z3.Implies(z3.And(bz(wf.nodes[j].present), wf.creator_is(j, c)), rank[c] < rank[j]))
             return cons
 
-        def action(wf, w, s, aux, fn=fn):
-            fn(wf, w, s, w.db.run, aux)
+        def action(wf, w, s, aux):
+            fn_m(wf, w, s, w.db.run, aux)
 
         def post(wf, aux):
             return [z3.Not(c) for c in flag_invariants(wf)]
 
-        def viol(res, wf0, m, content, which, aux, name=name):
+        def viol(res, wf0, m, content, which, aux):
             margs = {}
             for v in ("m.file", "m.step", "m.creator", "m.newstate", "m.dep"):
                 margs[v] = m.eval(z3.Int(v), model_completion=True).as_long()
             body = f"        mutation = {name!r}\n        margs = {margs!r}\n" + _MUT_RUNNER + BODY_MUT
-            clause = ["ready", "has_hash", "safe", "after"]
             _replay_generic(res, "O10.3", f"O10.3:{name}", content, body, f"{name} leaves a cached scheduling attribute stale without flagging it", targets=_targets_from_model(wf0, m))
 
-        c = _explore(res, name, K, D, pre, action, post, on_violation=viol, max_paths=200, allow_integrity=True)
-        total_paths += c["paths"]
-    res.twin("mutation paths explored", "sat" if total_paths >= 1 else "unsat", 0.0)
-    res.nontrivial = len(res.queries)
-    return res
+        c = _explore(res, name, K, D, pre, action, post, on_violation=viol, max_paths=400, allow_integrity=True)
+        res.twin("mutation paths explored", "sat" if c["paths"] >= 1 else "unsat", 0.0)
+        res.nontrivial = len(res.queries)
+        return res
+
+    return fn
 
 
 _MUT_RUNNER = '''        def run_mutation(wf, db):
@@ -940,6 +944,12 @@ _MUT_RUNNER = '''        def run_mutation(wf, db):
             else: raise SystemExit(2)
 '''
 
+MUTATION_NAMES = [
+    "File.set_state", "Step.set_state", "Step.add_source(file)", "File.add_source(step)", "Step.del_sources([file])",
+    "File.del_all_sources", "INSERT dynamic_dep", "DELETE dynamic_dep", "Step.set_hash", "Step.delete_hash", "Step.hold",
+    "Step.release", "Step.detach", "File.detach (static)", "File.del_sources([step]) + detach", "Step.reattach(step)", "Step.set_duration",
+]
 OBLIGATIONS += [
-    Ob("O10.3", o10_3, "no lost wake-up: each mutation through the real methods keeps 'unflagged => coherent'", weight=8, timeout={"quick": 3000, "thorough": 10800}),
+    Ob(f"O10.3.{k}", mk_o10_3(n), f"no lost wake-up: {n} keeps 'unflagged => coherent'", weight=6 if n in DEEP else 3, timeout={"quick": 2400, "thorough": 10800})
+    for k, n in enumerate(MUTATION_NAMES)
 ]
